@@ -169,6 +169,153 @@ Proof.
       specialize (IH (p ++ [c]) n (if c <? n then delta + 1 else delta) bias h nd id rest fueld).
       rewrite Estep, <- Eapp in IH. apply IH; try assumption.
       rewrite le_part_app, len_app. cbn [le_part filter].
-      destruct (N.leb_spec c n); destruct (N.ltb_spec c n); try lia; unfold len at 3; cbn [length]; lia.
+      destruct (N.leb_spec c n); destruct (N.ltb_spec c n); try lia; unfold len in *; cbn [length] in *; lia.
 Qed.
 End RT.
+
+(* ------------------------------------------------------------------ *)
+(* the main loops                                                      *)
+(* ------------------------------------------------------------------ *)
+Lemma filter_length_le (f : N -> bool) l : (length (filter f l) <= length l)%nat.
+Proof. induction l as [|c r IH]; [cbn; lia|]. cbn [filter]. destruct (f c); cbn [length]; lia. Qed.
+
+Lemma filter_all (f : N -> bool) l : length (filter f l) = length l -> filter f l = l.
+Proof.
+  induction l as [|c r IH]; [reflexivity|]. cbn [filter]. destruct (f c); cbn [length]; intros H.
+  - f_equal. apply IH. lia.
+  - pose proof (filter_length_le f r) as Hle. lia.
+Qed.
+
+Lemma len_filter_le (f : N -> bool) l : len (filter f l) <= len l.
+Proof. unfold len. pose proof (filter_length_le f l). lia. Qed.
+
+Lemma lt_part_min l n m : min_ge l n = Some m -> lt_part m l = lt_part n l.
+Proof.
+  intros H. destruct (min_ge_props l n m H) as (_ & Hge & Hmin).
+  unfold lt_part. apply filter_ext_in. intros c Hc.
+  destruct (N.ltb_spec c m); destruct (N.ltb_spec c n); try reflexivity; try lia.
+  specialize (Hmin c Hc ltac:(lia)). lia.
+Qed.
+
+Lemma le_lt_succ l m : le_part m l = lt_part (m + 1) l.
+Proof.
+  unfold le_part, lt_part. apply filter_ext. intros c.
+  destruct (N.leb_spec c m); destruct (N.ltb_spec c (m + 1)); try reflexivity; lia.
+Qed.
+
+Lemma lt_le_length r m : (length (lt_part m r) <= length (le_part m r))%nat.
+Proof.
+  unfold lt_part, le_part. induction r as [|a r IH]; [cbn; lia|]. cbn [filter].
+  destruct (N.ltb_spec a m); destruct (N.leb_spec a m); cbn [length]; lia.
+Qed.
+
+Lemma le_part_more l m : In m l -> len (lt_part m l) + 1 <= len (le_part m l).
+Proof.
+  unfold lt_part, le_part.
+  induction l as [|c r IH]; intros []; unfold len in *; cbn [filter] in *.
+  - subst c. rewrite N.leb_refl, N.ltb_irrefl. cbn [length].
+    pose proof (lt_le_length r m). unfold lt_part, le_part in *. lia.
+  - specialize (IH H). destruct (N.ltb_spec c m); destruct (N.leb_spec c m); cbn [length]; lia.
+Qed.
+
+Lemma min_ge_some l n : len (lt_part n l) < len l -> exists m, min_ge l n = Some m.
+Proof.
+  intros H. destruct (min_ge l n) as [m|] eqn:E; [eexists; reflexivity|exfalso].
+  pose proof (min_ge_none l n E) as Hall.
+  assert (lt_part n l = l); [|unfold len in H; rewrite H0 in H; lia].
+  unfold lt_part. clear H E. induction l as [|c r IH]; [reflexivity|]. cbn [filter].
+  pose proof (Hall c (or_introl eq_refl)). destruct (N.ltb_spec c n); [|lia].
+  f_equal. apply IH. intros c0 Hc0. apply Hall. right. exact Hc0.
+Qed.
+
+Lemma decode_main_nil fuel n i bias output : decode_main fuel [] n i bias output = Some output.
+Proof. destruct fuel; reflexivity. Qed.
+
+Lemma main_roundtrip b l : forall fuele n delta bias h nd id fueld,
+  h = len (lt_part n l) -> nd <= n -> 128 <= n ->
+  nd * (h + 1) + id + delta = n * (h + 1) ->
+  (id =? 0) = (h =? b) -> b <= h ->
+  (length l - N.to_nat h <= fuele)%nat ->
+  (length (encode_main fuele l n b (mkE delta bias h)) <= fueld)%nat ->
+  decode_main fueld (encode_main fuele l n b (mkE delta bias h)) nd id bias (lt_part n l) = Some l.
+Proof.
+  assert (Hdone : forall n h, h = len (lt_part n l) -> (length l - N.to_nat h <= 0)%nat -> lt_part n l = l).
+  { intros n h Hh Hz. apply filter_all. pose proof (len_filter_le (fun c => c <? n) l).
+    unfold len, lt_part in *. lia. }
+  induction fuele as [|f IH]; intros n delta bias h nd id fueld Hh Hnd Hn Hinv Hflag Hbh Hfe Hfd.
+  - cbn [encode_main]. rewrite decode_main_nil. f_equal. eapply Hdone; eassumption.
+  - cbn [encode_main e_h e_delta e_bias] in *.
+    destruct (N.ltb_spec h (N.of_nat (length l))) as [Lt|Ge].
+    2:{ rewrite decode_main_nil. f_equal. apply (Hdone n h Hh). lia. }
+    destruct (min_ge_some l n ltac:(unfold len in *; lia)) as [m Em]. rewrite Em in *.
+    destruct (min_ge_props l n m Em) as (Min & Mge & Mmin).
+    pose proof (lt_part_min l n m Em) as Elt.
+    pose proof (pass_roundtrip b l [] m (delta + (m - n) * (h + 1)) bias h nd id) as P.
+    destruct (encode_pass l m b (mkE (delta + (m - n) * (h + 1)) bias h)) as [st' out] eqn:EP.
+    cbn [fst snd app] in P.
+    specialize (P (encode_main f l (m + 1) b (mkE (e_delta st' + 1) (e_bias st') (e_h st'))) fueld).
+    destruct P as (fd' & nd' & id' & P1 & P2 & P3 & P4 & P5 & P6 & P7); try assumption; try lia.
+    { unfold out_of. cbn [le_part filter app]. rewrite Elt. exact Hh. }
+    { cbn [le_part filter]. unfold len at 1. cbn [length]. nia. }
+    unfold out_of in P2 at 1. cbn [le_part filter app] in P2. rewrite Elt in P2. rewrite P2.
+    unfold out_of in *. cbn [lt_part filter] in *. rewrite app_nil_r in *.
+    rewrite le_lt_succ in *.
+    pose proof (le_part_more l m Min) as Hmore. rewrite le_lt_succ, Elt, <- Hh in Hmore.
+    apply IH; try lia.
+Qed.
+
+(* ------------------------------------------------------------------ *)
+(* spec_decode (spec_encode l) = Some l                                *)
+(* ------------------------------------------------------------------ *)
+Lemma encode_pass_no_delim b : forall l n st,
+  Forall (fun c => c <> delimiter) (snd (encode_pass l n b st)).
+Proof.
+  induction l as [|c r IH]; intros n st; [constructor|]. cbn [encode_pass].
+  destruct (c =? n); [|apply IH].
+  match goal with |- context [encode_pass r n b ?s] =>
+    specialize (IH n s); destruct (encode_pass r n b s) as [st' out'] end.
+  cbn [snd] in *. apply Forall_app. split; [apply encode_int_no_delim|exact IH].
+Qed.
+
+Lemma encode_main_no_delim b l : forall fuel n st,
+  Forall (fun c => c <> delimiter) (encode_main fuel l n b st).
+Proof.
+  induction fuel as [|f IH]; intros n st; [constructor|]. cbn [encode_main].
+  destruct (e_h st <? N.of_nat (length l)); [|constructor].
+  destruct (min_ge l n) as [m|]; [|constructor].
+  match goal with |- context [encode_pass l m b ?s] =>
+    pose proof (encode_pass_no_delim b l m s) as H; destruct (encode_pass l m b s) as [st' out] end.
+  cbn [snd] in H. apply Forall_app. split; [exact H|apply IH].
+Qed.
+
+Lemma split_none e : Forall (fun c => c <> delimiter) e -> split_last_delim e = None.
+Proof.
+  induction 1 as [|c r Hc HF IH]; [reflexivity|]. cbn [split_last_delim]. rewrite IH.
+  destruct (N.eqb_spec c delimiter); [contradiction|reflexivity].
+Qed.
+
+Lemma split_found a e : Forall (fun c => c <> delimiter) e ->
+  split_last_delim (a ++ delimiter :: e) = Some (a, e).
+Proof.
+  intros HF. induction a as [|c a IH]; cbn [app split_last_delim].
+  - rewrite (split_none e HF). rewrite N.eqb_refl. reflexivity.
+  - rewrite IH. reflexivity.
+Qed.
+
+Theorem punycode_roundtrip l : spec_decode (spec_encode l) = Some l.
+Proof.
+  unfold spec_encode, spec_decode.
+  set (B := filter basic l). set (b := N.of_nat (length B)).
+  set (E := encode_main (length l) l initial_n b (mkE 0 initial_bias b)).
+  pose proof (encode_main_no_delim b l (length l) initial_n (mkE 0 initial_bias b)) as HE. fold E in HE.
+  assert (HB : forallb basic B = true).
+  { apply forallb_forall. intros x Hx. apply filter_In in Hx. apply Hx. }
+  assert (Hmain : decode_main (length E) E initial_n 0 initial_bias B = Some l).
+  { change B with (lt_part 128 l). unfold E, initial_n.
+    apply main_roundtrip; try lia; try reflexivity. }
+  destruct (N.ltb_spec 0 b) as [Lb|Lb].
+  - cbn [app]. rewrite (split_found B E HE). destruct B as [|x B'] eqn:EB; [cbn in b; lia|].
+    rewrite <- EB in *. rewrite HB. exact Hmain.
+  - assert (B = []) by (destruct B; [reflexivity|cbn in b; lia]).
+    rewrite H in *. cbn [app]. rewrite (split_none E HE). cbn [forallb]. exact Hmain.
+Qed.
